@@ -88,6 +88,10 @@ theorem roman_value (n : Nat) (h1 : n < 4000) :
   unfold romanValueOk at h
   exact eq_of_beq h
 
+/-- The same for EVERY `n` (any number of leading `m`, which are never subtracted). -/
+theorem roman_value_all (n : Nat) :
+    Spec.Labels.romanValue (Spec.Labels.romanAux Spec.Labels.romanTable n) = (n : Int) := romanValue_all n
+
 /-- For `value ≤ 0` the code raises `AssertionError` (modelled, not totalised away); since the
 round-6 fix there is no upper bound. -/
 theorem roman_outside (v : Int) (h : v ≤ 0) : formatIntRoman v = .error .assertion := by
